@@ -40,6 +40,9 @@ CHECKS = {
  "C20": dict(cat="model_checking", tech="TLA+ specification of constraint satisfiability (Csp.tla: declarative and algorithmic definitions cross-checked exhaustively by TLC) + TLC trace validation of the real solver",
    text="Csp.tla defines satisfiability of a system of ranges, parities and difference constraints twice: SatDecl (existence of an assignment) and SatAlg (parity case split, halving, bounds fixed point). TLC checks SatDecl = SatAlg on every system of a small bound (62k systems quick, 174k thorough) and on every small system of the traces, then judges the real CspSolver on seeded systems of 1..10 variables inside [-16,47] under all four value-preference orders: reported solvability = Sat(sys) and each returned assignment satisfies every domain and constraint.",
    note="Trusted: TLC, Csp.tla. The algorithmic oracle is used alone only when the assignment space exceeds 3000 points."),
+ "C10": dict(cat="model_checking", tech="TLA+ design model of the thread controller (SearchControl.tla) model-checked by TLC + TLC validation of hook-recorded traces of the real engine (Tr_Control.tla) under seeded schedule perturbation",
+   text="(1) SearchControl.tla (protocol, engine and helper threads; one action per critical section, notifier operation and mailbox poll) is model-checked exhaustively for several helper trees and command scripts: deadlock freedom, at most one bestmove per search, quiescence at the search=false hand-over, non-negative ack counters, results only for the current job, and under fairness termination and every go answered. (2) The engine built with the TEXEL_VERIF hooks runs seeded command scripts (go/finish, go/stop, ponder/ponderhit, ponder/stop, back-to-back go, Threads changes, quit during search) with Threads 1..8 under seeded priority-based schedule perturbation; events logged inside the critical sections are validated by TLC against Tr_Control.tla, which rebuilds mailboxes, ack counters and job ids with the design's rules and evaluates the monitor (ExactlyOneBest, BestOnlyWhenReleased, QuiescentAtDone/AtStart, AckCountersNonNegative, ResultOnlyForCurrentJob, EverySearchAnswered). Hangs (watchdog), crashes and missing bestmoves are violations; design-only mismatches are reported as MODEL-DRIFT.",
+   note="Trusted: TLC, SearchControl.tla/Tr_Control.tla, the hook library sched/vsched.cpp. Real-code schedules are sampled, not enumerated; exhaustive interleaving coverage is on the model."),
 }
 
 NOT_APPLICABLE = {
